@@ -151,6 +151,25 @@ let read_op cl (c : cursor) (st_m : model option) (st_o : int) : pop_info =
     let obf = reshape3 (int_of_nat g.gS) (int_of_nat g.gA) no obflat in
     mk ~rsrc:rs k None (Some (PCtorCopy { gpM = g; gpO = nat_of_int no; gpOb = obf }))
       (ill || tab_ill ~sparse:cl.sparse obf) (cl.name ^ "::Model(const_PM&)") (("copy", obf) :: tabs) (Some d)
+  | "ctorlib" | "pctorlib" ->
+    (* converting constructor from a library model built through NO_CHECK (arbitrary tables/discount) *)
+    let _sk = next c in
+    let no = if k = "pctorlib" then next_int c else 0 in
+    let obflat = if k = "pctorlib" then flat_x () else [] in
+    let s' = next_int c in let a' = next_int c in let d = next_xq c in
+    let t = reshape3 a' s' s' (next_list c next_xq) in          (* [a][s][s1] *)
+    let rm = reshape2 s' a' (next_list c next_q) in             (* [s][a] *)
+    let src = { mS = nat_of_int s'; mA = nat_of_int a'; mT = t; mR = rm; mD = d } in
+    let g = gmodel_of src in
+    let ill = tab_ill ~sparse:cl.sparse t || (cl.sparse && List.exists (List.exists (fun x -> entry_ill (XFin x))) rm) in
+    let site = cl.name ^ "::Model(const_" ^ (if k = "pctorlib" then "PM" else "M") ^ "&)" in
+    if k = "ctorlib" then mk ~rsrc:(RTab (g.gR, Some g.gT)) k (Some (CtorCopy g)) None ill site [("copy", g.gT)] (Some d)
+    else begin
+      let ob = reshape3 a' s' no obflat in                      (* [a][s1][o] *)
+      let obf = transpose01 (nat_of_int a') (nat_of_int s') ob in   (* [s1][a][o] *)
+      mk ~rsrc:(RTab (g.gR, Some g.gT)) k None (Some (PCtorCopy { gpM = g; gpO = nat_of_int no; gpOb = obf }))
+        (ill || tab_ill ~sparse:cl.sparse ob) site [("copy", obf); ("copy", g.gT)] (Some d)
+    end
   | "conv" ->
     mk ~rsrc:RConv k None None false (cl.name ^ "::Model(const_M&)") [("copy", [])] None
   | "setd" ->
@@ -270,6 +289,8 @@ let judge_seq (cl : cls) (c : cursor) (r : cursor) : bool * string =
          if not (disc_okb dm.mD) then begin
            if info.opname = "ctor3" || info.opname = "pctor+ctor3" || info.opname = "pctorob+ctor3"
            then oracle_fail "ctor_validates_discount" (cl.base ^ "::Model(s,a,discount)") ("stored discount " ^ str_xq dm.mD ^ " not in (0,1]")
+           else if List.mem info.opname ["ctorc"; "pctorc"; "ctorlib"; "pctorlib"; "conv"; "pctor+ctorc"; "pctorob+ctorc"]
+           then oracle_fail "conversion_validates_discount" info.site ("converted model has discount " ^ str_xq dm.mD ^ " not in (0,1]")
            else if dm.mD = XNaN then oracle_fail "setDiscount_rejects_nan" (cl.base ^ "::setDiscount") "NaN accepted as a discount"
            else oracle_fail "setDiscount_iff" (cl.base ^ "::setDiscount") ("accepted discount " ^ str_xq dm.mD ^ " not in (0,1]")
          end;
